@@ -210,9 +210,9 @@ impl Prop for C17 {
             }
             3..=5 => {
                 case.family = "view_options".into();
-                let shape: Vec<usize> = match rng.below(4) {
+                let shape: Vec<usize> = match rng.below(5) {
                     0 => (0..rng.range(1, 4)).map(|_| rng.range(1, 2)).collect(),
-                    1 => (0..rng.range(4, 6)).map(|_| rng.range(1, 3)).collect(),
+                    1 | 2 => (0..rng.range(4, 6)).map(|_| rng.range(1, 3)).collect(),
                     _ => grid_shape(&mut rng),
                 };
                 let d = shape.len();
@@ -229,6 +229,26 @@ impl Prop for C17 {
                         let a = rng.pick(&axes).clone();
                         let at = rng.range(0, axes.len());
                         axes.insert(at, a);
+                    }
+                    if rng.chance(1, 3) && d >= 2 {
+                        // structured lists of in-range axes: permutations with and without a
+                        // repeated entry, shorter than the number of dimensions where possible
+                        let a = rng.below(d as u64) as usize;
+                        let mut b = rng.below(d as u64) as usize;
+                        if b == a {
+                            b = (a + 1) % d;
+                        }
+                        let c = (a.max(b) + 1) % d;
+                        let pat: Vec<usize> = match rng.below(7) {
+                            0 => vec![a, b, a],
+                            1 => vec![a, a, b],
+                            2 => vec![b, a, a],
+                            3 => vec![a, b, c, a],
+                            4 => vec![b, a],
+                            5 => vec![a, b, c],
+                            _ => vec![a, a],
+                        };
+                        axes = pat.into_iter().map(|x| x.to_string()).collect();
                     }
                     case.args.push(flag.into());
                     case.args.push(axes.join(","));
@@ -398,6 +418,52 @@ impl Prop for C17 {
                     2 => vec!["fold".into()],
                     _ => vec!["stat".into(), "-s".into(), "sum".into()],
                 };
+                deliver(&mut rng, &mut case, bytes);
+            }
+            13 | 14 if rng.chance(2, 3) => {
+                // typed-value corruption inside the per-sample (FORMAT) block of BCF records:
+                // reserved / end-of-vector / missing codes and type descriptor bytes
+                case.family = "bcf_typed_values".into();
+                let mut p = CallSetParams::standard(5, 6);
+                p.kind_w = [5, 2, 2, 2, 1, 1, 0, 0, 0, 0];
+                let (mut callset, cfg) = gen::gen_callset(&mut rng, &p);
+                if callset.recs.is_empty() {
+                    let s = callset.samples.clone();
+                    callset.recs.push(gen::gen_rec(&mut rng, 0, &s, &cfg, 0, 9));
+                }
+                for r in callset.recs.iter_mut() {
+                    r.extra_fmt = rng.chance(1, 2);
+                }
+                let mut raw = gen::vcf_to_bcf(&callset.to_vcf()).unwrap_or_default();
+                let offs = gen::bcf_record_offsets(&raw);
+                if !offs.is_empty() {
+                    for _ in 0..rng.range(1, 2) {
+                        let o = *rng.pick(&offs);
+                        if o + 8 > raw.len() {
+                            continue;
+                        }
+                        let ls = u32::from_le_bytes([raw[o], raw[o + 1], raw[o + 2], raw[o + 3]]) as usize;
+                        let li = u32::from_le_bytes([raw[o + 4], raw[o + 5], raw[o + 6], raw[o + 7]]) as usize;
+                        let (a, b) = if rng.chance(3, 4) { (o + 8 + ls, o + 8 + ls + li) } else { (o + 8, o + 8 + ls) };
+                        if a >= b || b > raw.len() {
+                            continue;
+                        }
+                        let at = rng.range(a, b - 1);
+                        raw[at] = *rng.pick(&[
+                            0x80u8, 0x81, 0x82, 0x83, 0x87, 0x7f, 0x00, 0x11, 0x12, 0x13, 0x15, 0x17, 0x21, 0x22, 0x23, 0x25, 0x27, 0xf1, 0xf2, 0xf7, 0x10, 0x01, 0x02,
+                            0x03, 0x05, 0x07, 0xff,
+                        ]);
+                    }
+                }
+                let bytes = if rng.chance(1, 2) {
+                    raw
+                } else {
+                    gen::bgzf_frame(&raw, &Layout { blocks: vec![], eof_marker: true, level: 6 }).0
+                };
+                case.args = vec!["create".into()];
+                if rng.chance(1, 2) {
+                    case.args.extend(cfg.cli_args());
+                }
                 deliver(&mut rng, &mut case, bytes);
             }
             _ => {
@@ -679,6 +745,7 @@ impl Prop for C17 {
             "family.create_mutated_input",
             "family.create_contradictory_samples",
             "family.create_samples_file",
+            "family.bcf_typed_values",
             "fault.chunked_stdin",
             "exit.exit0",
             "exit.exit_nonzero",
